@@ -10,7 +10,14 @@
       the `MutexGuard` is a temporary of the match scrutinee and therefore lives until the end of the
       `let` statement: pop-or-create is one atomic step (`Pool.get`).  The six entry points differ only
       in the constructor used for a fresh arena and in how a failed construction is reported, so they
-      are one model function with the base allocator's verdict as an input (`createOk`);
+      are one model function with the fate of a needed construction as an input (`Create`): it
+      succeeds, it is refused (`try_*` returns `Err(AllocError)`: failed allocation or capacity
+      overflow), or it PANICS (`get_with_size(usize::MAX)`, `get_with_capacity(huge)`: "capacity
+      overflow" raised inside `Bump::generic_with_*_in` while the lock guard temporary is alive).
+      The panic unwinds through the `MutexGuard`, which POISONS the mutex; `lock()` and `bumps()`
+      ignore poisoning (`unwrap_or_else(PoisonError::into_inner)`), so the pool is specified to keep
+      working identically afterwards.  The model carries the flag (`State.poisoned`) only to be able to
+      state that nothing depends on it;
     * `BumpPoolGuard::drop`: `self.pool.lock().push(bump)` (`Pool.put`);
     * `mem::forget(guard)` (safe code; mentioned in the SAFETY comment of `Deref`): the arena is
       neither returned nor dropped (`Pool.forget`);
@@ -60,10 +67,11 @@ structure State where
   created : Nat                        -- number of arenas ever constructed; the next fresh id
   arenas : ArenaId → Arena
   dropped : Bool                       -- the pool itself was dropped
+  poisoned : Bool                      -- `Mutex::is_poisoned`: a `get*` panicked inside the critical section
   deriving Inhabited
 
 def init : State :=
-  { idle := [], owned := [], leaked := [], created := 0, arenas := fun _ => {}, dropped := false }
+  { idle := [], owned := [], leaked := [], created := 0, arenas := fun _ => {}, dropped := false, poisoned := false }
 
 /-- contract violations of a step list (not reachable from safe Rust) -/
 inductive Err where
@@ -76,12 +84,20 @@ inductive Err where
 /-- what the caller observes -/
 inductive Out where
   | got (a : ArenaId) (fresh : Bool)   -- a guard around arena `a`; `fresh` = constructed by this call
-  | failed                             -- `Err(AllocError)` / panic of the constructor: no guard
+  | failed                             -- `Err(AllocError)` from the constructor: no guard
+  | panicked                           -- the constructor panicked (capacity overflow): no guard, the call unwinds
   | done
   deriving Repr, DecidableEq, Inhabited
 
+/-- what happens IF this `get*` has to construct a fresh arena -/
+inductive Create where
+  | ok       -- the base allocator serves it
+  | fail     -- refused: `try_get*` returns `Err` (allocation failure, or capacity overflow of a `try_` variant)
+  | panic    -- the panicking variant hits a capacity overflow and unwinds out of the critical section
+  deriving Repr, DecidableEq, Inhabited
+
 inductive Step where
-  | get (g : GuardId) (createOk : Bool)   -- `createOk`: would the base allocator serve a fresh arena
+  | get (g : GuardId) (c : Create)        -- `c` is consulted only when no idle arena exists
   | put (g : GuardId)
   | forget (g : GuardId)
   | alloc (g : GuardId) (t : Tag)
@@ -113,7 +129,7 @@ def takeOut (g : GuardId) : List (GuardId × ArenaId) → Option (ArenaId × Lis
       | some (b, rest') => some (b, (g', a) :: rest')
 
 /-- `BumpPool::get`, `try_get`, `generic_get_with_size`, `generic_get_with_capacity` (bump_pool.rs l.177-293) -/
-def get (s : State) (g : GuardId) (createOk : Bool) : Except Err (State × Out) :=
+def get (s : State) (g : GuardId) (c : Create) : Except Err (State × Out) :=
   if s.dropped then .error .poolDropped
   else if (arenaOf g s.owned).isSome then .error .guardInUse
   else
@@ -121,12 +137,13 @@ def get (s : State) (g : GuardId) (createOk : Bool) : Except Err (State × Out) 
     | a :: rest =>                           -- `Some(bump) => bump`
       .ok ({ s with idle := rest, owned := (g, a) :: s.owned }, .got a false)
     | [] =>                                  -- `None => Bump::…_in(self.allocator.clone())?`
-      if createOk then
-        .ok ({ s with created := s.created + 1, owned := (g, s.created) :: s.owned }, .got s.created true)
-      else
-        .ok (s, .failed)
+      match c with
+      | .ok => .ok ({ s with created := s.created + 1, owned := (g, s.created) :: s.owned }, .got s.created true)
+      | .fail => .ok (s, .failed)                                    -- `?` returns, the lock guard is dropped normally
+      | .panic => .ok ({ s with poisoned := true }, .panicked)       -- unwinding drops the lock guard: poisoned
 
-/-- `Drop for BumpPoolGuard` (bump_pool.rs l.361-370): `self.pool.lock().push(bump)` -/
+/-- `Drop for BumpPoolGuard` (bump_pool.rs l.361-370): `self.pool.lock().push(bump)` — `lock()` recovers
+    from poisoning, so the arena goes back whether or not `s.poisoned` -/
 def put (s : State) (g : GuardId) : Except Err (State × Out) :=
   if s.dropped then .error .poolDropped
   else match takeOut g s.owned with
@@ -160,7 +177,7 @@ def dropPool (s : State) : Except Err (State × Out) :=
   | .error e => .error e
 
 def step (s : State) : Step → Except Err (State × Out)
-  | .get g ok => get s g ok
+  | .get g c => get s g c
   | .put g => put s g
   | .forget g => forget s g
   | .alloc g t => alloc s g t
@@ -203,6 +220,9 @@ def peakFrom (cur peak : Nat) : List (Step × Out) → Nat
 
 /-- peak number of simultaneously live guards of a history that starts with a new pool -/
 def peakLive (log : List (Step × Out)) : Nat := peakFrom 0 0 log
+
+/-- forget the poison flag (nothing the pool does may depend on it) -/
+def State.unpoison (s : State) : State := { s with poisoned := false }
 
 def Step.isClear : Step → Bool
   | .reset | .resetToStart | .drop => true
